@@ -18,6 +18,9 @@ type Config struct {
 	Clients        []int  `json:"clients"`                // indices into the client address pool
 	Deny           []int  `json:"deny"`                   // peer-pool indices the permission handler refuses
 	DenyClient     int    `json:"deny_client"`            // -1: deny for everybody; else only for this client index
+	// DenyStream: peers that only the stream listener's permission handler refuses (the UDP
+	// listener of the same server admits them): each listener has its own policy
+	DenyStream []int `json:"deny_stream,omitempty"`
 	DenyAfterS     int    `json:"deny_after_s,omitempty"` // >0: the deny list only applies from this many seconds after start
 	NoAuth         bool   `json:"no_auth,omitempty"`      // no AuthHandler configured
 	Quota          int    `json:"quota,omitempty"`        // >0: at most this many allocations per user (QuotaHandler)
